@@ -39,6 +39,20 @@ func (a *Adversary) onHTLC(p *Payment, inv *Invoice) string {
 	return "settle"
 }
 
+func (a *Adversary) onInvoicePaid(inv *Invoice) {
+	if a.peer != nil {
+		a.peer.onInvoicePaid(inv)
+	}
+}
+
+// Openings returns what the hostile maker built and announced, by swap id.
+func (a *Adversary) Openings() map[string]*AdvOpening {
+	if a.peer == nil {
+		return nil
+	}
+	return a.peer.Opens
+}
+
 func (a *Adversary) start() {
 	if a.peer != nil {
 		a.peer.start()
